@@ -110,7 +110,7 @@ static inline ss_i64 ss_repeat_map (int mode, ss_i64 c, ss_i64 size)
 #define SS_PHASE_W(bits)             (SS_ONE >> (bits))                                /* width of one phase */
 #define SS_PHASE_INDEX(x, bits)      (SS_FRAC (x) / SS_PHASE_W (bits))                  /* floor (frac (x) * 2^bits) */
 #define SS_PHASE_ROUND(x, bits)      ((ss_i64) (x) - SS_FRAC (x) % SS_PHASE_W (bits) + SS_PHASE_W (bits) / 2)
-#define SS_SEP_WEIGHT(fx, fy)        SS_FLOOR_INT ((ss_i64) (fx) * (ss_i64) (fy) + SS_HALF)
+#define SS_SEP_WEIGHT(fx, fy)        SS_FLOOR_INT ((ss_i64) (fy) * (ss_i64) (fx) + SS_HALF)
 
 /* ---- projective ---- */
 /* signed quotient truncated towards zero (C '/' on signed 64-bit operands is exactly that) */
